@@ -1,23 +1,46 @@
-"""helpers that touch the library (imported lazily by property modules)"""
+"""helpers that touch the library (imported lazily by property modules)
+
+Memory layout is part of the input diversity: a maze is the same maze whether its arrays are C-contiguous (what the library
+itself produces), Fortran-ordered, or non-contiguous views into larger buffers.  Every third object built here gets one of the
+other layouts (deterministic rotation), for every check that builds its mazes through these helpers."""
 
 from __future__ import annotations
 
 import numpy as np
 
+_N = [0]
+LAYOUT_TALLY = {"C": 0, "F": 0, "view": 0}
+
+
+def _layout(a: np.ndarray) -> np.ndarray:
+    _N[0] += 1
+    k = _N[0] % 6
+    if k == 2 and a.ndim >= 2:
+        LAYOUT_TALLY["F"] += 1
+        return np.asfortranarray(a)
+    if k == 4:
+        # a non-contiguous view: every second element of a buffer twice as long in the last axis
+        big = np.zeros(a.shape[:-1] + (a.shape[-1] * 2,), dtype=a.dtype)
+        big[..., ::2] = a
+        LAYOUT_TALLY["view"] += 1
+        return big[..., ::2]
+    LAYOUT_TALLY["C"] += 1
+    return a
+
 
 def lattice(cl):
     from maze_dataset.maze.lattice_maze import LatticeMaze
 
-    return LatticeMaze(connection_list=np.array(cl, dtype=bool))
+    return LatticeMaze(connection_list=_layout(np.array(cl, dtype=bool)))
 
 
 def targeted(cl, s, e):
     from maze_dataset.maze.lattice_maze import TargetedLatticeMaze
 
-    return TargetedLatticeMaze(connection_list=np.array(cl, dtype=bool), start_pos=np.array(s), end_pos=np.array(e))
+    return TargetedLatticeMaze(connection_list=_layout(np.array(cl, dtype=bool)), start_pos=np.array(s), end_pos=np.array(e))
 
 
 def solved(cl, path, meta=None):
     from maze_dataset.maze.lattice_maze import SolvedMaze
 
-    return SolvedMaze(connection_list=np.array(cl, dtype=bool), solution=np.array(path), generation_meta=meta)
+    return SolvedMaze(connection_list=_layout(np.array(cl, dtype=bool)), solution=_layout(np.array(path)), generation_meta=meta)
